@@ -56,13 +56,13 @@ def accepted_set(F):
         offs = set()
         for a in conj:
             x, y = a[2][1], a[3][1]
-            if a[1] in ("eq", "ne") and {repr(x), repr(y)} == {repr(num(0)), repr(J)}:
+            if a[1] in ("eq", "ne") and ((x == num(0) and y == J) or (y == num(0) and x == J)):
                 rowsel = a[1]
             elif a[1] == "ne":
                 other = y if x == K else (x if y == K else None)
                 if other is None:
                     raise AnalysisError("is_staircase: conjunct not about k: %r" % (a,))
-                offs.add(repr(other - D))
+                offs.add(other - D)
             else:
                 raise AnalysisError("is_staircase: unreadable conjunct %r" % (a,))
         if rowsel == "eq":
